@@ -213,8 +213,9 @@ def interleavings(p):
     return r
 
 
-def well_formed(p):
-    """truncation to 8 ops may cut a block: reject programs whose pairs are broken"""
+def well_formed(p, hold_ok=False):
+    """truncation to 8 ops may cut a block: reject programs whose pairs are broken.  hold_ok: an actor may end while still
+    owning mutexes (try_lock never followed by unlock: the hand-off family and shrunk programs; still race free)"""
     for ops in p["actors"]:
         held, pend = [], 0
         i = 0
@@ -246,7 +247,7 @@ def well_formed(p):
                 v = o[1]
                 if (("m", v) if v < 2 else ("s", v)) not in held:
                     return False
-        if held or pend:
+        if pend or (held and not (hold_ok and all(h[0] == "m" for h in held))):
             return False
     return True
 
@@ -285,6 +286,125 @@ CORPUS = [
     P([0, 0, 1, 1], [1, 1, 1, 1], [(1, 0, 0), (1, 1, 0), (2, 1, 0), (2, 0, 0)], [(1, 1, 0), (1, 2, 0), (2, 2, 0), (2, 1, 0)],
       [(1, 2, 0), (1, 0, 0), (2, 0, 0), (2, 2, 0)]),
 ]
+
+
+# ---- the "hand-off, then try_lock" family -------------------------------------------------------------------------
+# Source-set reductions (sdpor/odpor) decide whether a race (e, e') must be reversed from the sequence v of the events that
+# do not happen-after e: an actor is an *initial* of v iff its first event in v happens-after no earlier event of v.  The
+# delicate executions are those where v holds a chain
+#     event a of one actor  ->  FIRST event of Q, happening-after a  ->  a LATER event of Q  ->  FIRST event of R, depending
+#     only on that later event
+# with R created early, so that R is already explored (sleeping / in the backtrack set) at the state of the race: a wrong
+# "R is an initial" answer then silently drops the reversal, and with it a Mazurkiewicz trace.  The smallest programs doing
+# that are semaphore (or mailbox) hand-offs followed by try_locks on distinct mutexes; only one creation order of the four
+# actors below exposes a checker that forgets the events of non-initial actors (the other orders are controls).
+HO_X = [(3, 2, 0)]                      # try_lock(m2)
+HO_Y = [(4, 0, 0), (3, 2, 0)]           # sem0.acquire(); try_lock(m2)
+HO_Z = [(3, 0, 0)]                      # try_lock(m0)
+HO_W = [(5, 0, 0), (3, 0, 0)]           # sem0.release(); try_lock(m0)
+CORPUS_HANDOFF = [
+    P([0, 0, 1, 1], [1, 1, 1, 1], HO_X, HO_Y, HO_Z, HO_W),     # the exposing order: 4 outcomes (who owns m2) x (who owns m0)
+    P([0, 0, 1, 1], [1, 1, 1, 1], HO_X, HO_Z, HO_Y, HO_W),     # controls: same actors, other creation orders
+    P([0, 0, 1, 1], [1, 1, 1, 1], HO_W, HO_Z, HO_Y, HO_X),
+    P([0, 0, 1, 1], [1, 1, 1, 1], HO_Y, HO_X, HO_W, HO_Z),
+    # same chain with try_lock/unlock sections that record the winners' order in the protected variables
+    P([0, 0, 1, 1], [1, 1, 1, 1], [(3, 1, 2), (21, 1, 1), (2, 1, 0)], [(4, 0, 0), (3, 1, 2), (21, 1, 2), (2, 1, 0)],
+      [(3, 0, 2), (21, 0, 1), (2, 0, 0)], [(5, 0, 0), (3, 0, 2), (21, 0, 2), (2, 0, 0)]),
+    # the hand-off is a message, and the giver races before giving
+    P([0, 0, 1, 1], [1, 1, 1, 1], HO_X, [(8, 0, 0), (3, 2, 0)], HO_Z, [(3, 0, 0), (7, 0, 5)]),
+]
+for _p in CORPUS_HANDOFF:
+    _p["profile"] = "handoff-corpus"
+HANDOFF_NONE_LIMIT = 900               # brute force stays affordable on these tiny programs (one short replay per interleaving)
+
+
+def ho_section(rng, me, m):
+    """try_lock section of actor `me` on mutex m: owner for ever (mostly) or released; the winner is recorded in var m (m < 2)"""
+    upd = [[UPDVAR, m, me + 1]] if m < 2 else []
+    if rng.random() < 0.75:
+        b = [[TRYLOCK, m, len(upd)]] + upd
+        if not upd and rng.random() < 0.08:
+            b.append([ASSERTREG, 1, 0])                                   # "I never win": fails on some schedules only
+        return b
+    return [[TRYLOCK, m, len(upd) + 1]] + upd + [[UNLOCK, m, 0]]
+
+
+def ho_give_take(rng, h):
+    if rng.random() < 0.8:
+        s = h if rng.random() < 0.8 else 0
+        return [SEMREL, s, 0], [SEMACQ, s, 0]
+    return [PUT, h, 5 + h], [GET, h, 0]
+
+
+def gen_handoff(rng):
+    """3-4 actors x 1-4 visible ops: 1-2 hand-offs (semaphore of capacity 0, sometimes a mailbox) between distinct actors and,
+    per actor, 1-2 try_lock sections on 2-3 contended mutexes.  Half of the programs instantiate the chain described above
+    (roles R, Q, E, G: `R: try_lock(mq)`, `Q: take; try_lock(mq)`, `E: try_lock(me)`, `G: give; try_lock(me)`) with variations
+    and with R created first most of the time; the other half places hand-offs and sections freely."""
+    if rng.random() < 0.5:
+        mq, me_ = rng.sample([0, 1, 2], 2)
+        give, take = ho_give_take(rng, 0)
+        R, Q, E, G = 0, 1, 2, 3                                           # ids (= who is recorded as the winner) before reordering
+        acts = {R: ho_section(rng, R, mq), Q: [take] + ho_section(rng, Q, mq), E: ho_section(rng, E, me_),
+                G: ([give] + ho_section(rng, G, me_)) if rng.random() < 0.8 else (ho_section(rng, G, me_) + [give])}
+        if rng.random() < 0.35:                                           # one more section somewhere
+            a = rng.choice([R, Q, E, G])
+            free = [m for m in (0, 1, 2) if all(o[0] != TRYLOCK or o[1] != m for o in acts[a])]
+            sec = ho_section(rng, a, rng.choice(free))
+            acts[a] = (sec + acts[a]) if rng.random() < 0.3 and a not in (Q, R) else (acts[a] + sec)
+        k = rng.random()
+        order = [R, Q, E, G]
+        if 0.35 <= k < 0.7:
+            rest = [Q, E, G]
+            rng.shuffle(rest)
+            order = [R] + rest
+        elif k >= 0.7:
+            rng.shuffle(order)
+        return {"caps": [0, 0, 1, 1], "cnts": [1, 1, 1, 1], "actors": [acts[a] for a in order], "profile": "handoff"}
+    nact = 4 if rng.random() < 0.85 else 3
+    pre = [[] for _ in range(nact)]
+    for h in range(rng.choice([1, 1, 1, 1, 1, 2])):
+        g, t = rng.sample(range(nact), 2)
+        give, take = ho_give_take(rng, h)
+        pre[g].append(give)
+        pre[t].append(take)
+    nm = rng.choice([2, 2, 2, 3])
+    mutexes = rng.sample([0, 1, 2], nm)
+    actors = []
+    for me in range(nact):
+        blocks = [ho_section(rng, me, m) for m in rng.sample(mutexes, 1 if rng.random() < 0.85 else 2)]
+        ops = list(pre[me])
+        if ops and rng.random() < 0.3:                                    # hand-off after the (first) section instead of first
+            blocks.insert(1, ops)
+            ops = []
+        for b in blocks:
+            ops += b
+        actors.append(ops)
+    k = rng.random()
+    if k < 0.5:       # actors starting with a try_lock are created first (already explored when the others race)
+        actors.sort(key=lambda ops: 0 if ops[0][0] == TRYLOCK else 1)
+    elif k < 0.65:
+        actors.sort(key=lambda ops: 1 if ops[0][0] == TRYLOCK else 0)
+    return {"caps": [0, 0, 1, 1], "cnts": [1, 1, 1, 1], "actors": actors, "profile": "handoff"}
+
+
+def select_handoff(progs, models, n):
+    """distinct valid programs whose brute-force exploration is affordable; mostly error-free ones with several outcomes
+    (outcome sets are only comparable when the exploration is not stopped by an error)"""
+    seen, multi, err = set(), [], []
+    for p, m in zip(progs, models):
+        key = tuple(encode(p))
+        if m is None or m["invalid"] or key in seen or interleavings(p) > HANDOFF_NONE_LIMIT or not well_formed(p, hold_ok=True):
+            continue
+        seen.add(key)
+        if m["deadlock"] or m["failure"]:
+            if m["outcomes"]:
+                err.append(p)
+        elif len(m["outcomes"]) >= 3:
+            multi.append(p)
+    multi.sort(key=lambda p: -len(p["actors"]))       # stable: 4-actor programs first
+    ne = min(len(err), max(1, n // 5))
+    return multi[:n - ne] + err[:ne]
 
 
 # ------------------------------------------------------------------------------------------------ reference model
@@ -341,10 +461,10 @@ REDS = ["none", "dpor", "sdpor", "odpor"]
 NONE_LIMIT = 300          # `none` replays every interleaving: only used on programs with few of them
 
 
-def combos(p, full=True):
+def combos(p, full=True, none_limit=None):
     cs = []
     for red in REDS:
-        if red == "none" and interleavings(p) > NONE_LIMIT:
+        if red == "none" and interleavings(p) > (none_limit or NONE_LIMIT):
             continue
         for algo in ("DFS", "BeFS"):
             for strat in (("none", "uniform") if full else ("none",)):
@@ -458,7 +578,10 @@ def judge(p, m, res):
             add("skip", "timeout", combo, mode, "timeout")
             continue
         if rc not in (0, 1, 2):
-            if "no specialized computation" in r["log"] or "not supported yet" in r["log"]:
+            if "failed to connect within" in r["log"]:
+                # overloaded machine: the application did not reach the checker within its 5 s start-up limit (says nothing about soundness)
+                add("skip", "timeout", combo, mode, "application start-up timeout")
+            elif "no specialized computation" in r["log"] or "not supported yet" in r["log"]:
                 add("skip", "rejected", combo, mode, "program rejected by the checker")
             else:
                 add("fail", "checker-crash", combo, mode, "simgrid-mc ended with status %d: %s" % (rc, " ".join(r["log"][-400:].split())))
@@ -548,7 +671,7 @@ UNWITNESSED = {"missed-outcome": "reference-outcome-unwitnessed", "missed-deadlo
 def fails_same(runner, model_fn, p, combo, mode, what):
     """does program p still show this kind of failure for this combo?  (brute force is the witness when it is affordable;
     while shrinking, the verified reference alone is accepted as well)"""
-    if not well_formed(p) or sum(1 for a in p["actors"] if n_transitions(a)) < 1:
+    if not well_formed(p, hold_ok=True) or sum(1 for a in p["actors"] if n_transitions(a)) < 1:
         return False
     m = model_fn([p])[0]
     if m is None or m["invalid"]:
@@ -628,7 +751,10 @@ def run(ctx):
     ctx.cov["rule"] = ("programs of 2-4 actors x <=8 ops over mutexes (lock/try_lock/unlock), semaphores, barriers, mailboxes (put/get, "
                        "put_async/get_async + wait), join, MC_random, with MC_assert on lock-protected shared variables and on received values; "
                        "race free by construction; 6x candidates are generated per kept program and ranked by the verified reference so that "
-                       "most kept programs are schedule sensitive.  non-trivial = the reference says the schedule matters: at least two terminal "
+                       "most kept programs are schedule sensitive; plus the hand-off family (CORPUS_HANDOFF + gen_handoff: 4 actors, a semaphore/"
+                       "mailbox hand-off followed by try_locks on distinct mutexes, half of them the chain `R: try_lock(mq) | Q: take; try_lock(mq) "
+                       "| E: try_lock(me) | G: give; try_lock(me)` with R created first) on which brute force and every reduction x explorer x "
+                       "strategy run.  non-trivial = the reference says the schedule matters: at least two terminal "
                        "outcomes, or an error reachable on some schedules while others complete.  distinct = distinct program text")
     ctx.assumptions += [
         "the reference semantics McRef.v is hand-written from MutexImpl/SemaphoreImpl/BarrierImpl/CommImpl/ActorJoinSimcall in MC mode; it is tied "
@@ -643,7 +769,7 @@ def run(ctx):
         case = json.load(open(ctx.replay))["case"]
         # the replayed combination plus every strategy-none combination of the same program as independent witnesses
         forced = [tuple(case["combo"])] if case.get("combo") else []
-        forced += [c for c in combos(case["prog"], full=False) if c not in forced]
+        forced += [c for c in combos(case["prog"], full=False, none_limit=HANDOFF_NONE_LIMIT) if c not in forced]
         items = [(case["prog"], forced, True)]
     else:
         n = ctx.n(22, 260)
@@ -651,6 +777,14 @@ def run(ctx):
         ms = run_models(cands)
         sel = select(cands, ms, n)
         items = [(p, None, i % 3 == 0) for i, p in enumerate(CORPUS + [x[0] for x in sel])]
+        # the hand-off family: every reduction x explorer x strategy (brute force included) on every program, in both modes
+        nh = ctx.n(10, 100)
+        hcands = [gen_handoff(ctx.rng) for _ in range(12 * nh)]
+        hsel = select_handoff(hcands, run_models(hcands), nh)
+        # (brute force with BeFS + uniform is a listed known-defective region and the most expensive run: left to the generic programs)
+        fam = [(p, [c for c in combos(p, full=True, none_limit=HANDOFF_NONE_LIMIT) if c != ("none", "BeFS", "uniform")], True)
+               for p in CORPUS_HANDOFF + hsel]
+        items = items[:len(CORPUS)] + fam + items[len(CORPUS):]
     progs = [it[0] for it in items]
     models = run_models(progs)
     ctx.notes.append("setup+proofs+reference done at %.0fs" % (time.time() - ctx.t0))
@@ -670,7 +804,8 @@ def run(ctx):
     # mode A everywhere; mode B (max-errors=-1: keep exploring after an error) for the strategy-none combos
     resA = run_many(runner, work, ("A",))
     # (every other program only: beyond brute force, exploring after an accepted error is a known-defective area)
-    workB = [(p, m, [c for c in cs if c[2] == "none"] if (k % 2 == 0 or ctx.replay) else []) for k, (p, m, cs) in enumerate(work)]
+    workB = [(p, m, [c for c in cs if c[2] == "none"] if (k % 2 == 0 or ctx.replay or p.get("profile", "").startswith("handoff")) else [])
+             for k, (p, m, cs) in enumerate(work)]
     resB = run_many(runner, [(p, m, cs if (m["deadlock"] or m["failure"]) else []) for p, m, cs in workB], ("B",))
 
     ctx.notes.append("simgrid-mc runs done at %.0fs" % (time.time() - ctx.t0))
@@ -733,13 +868,21 @@ META = {
             "excluded); plus the classical sleep-set theorem on an abstract LTS with a commuting independence relation (C38_sleepset_sound/complete). "
             "Each generated race-free program is run by the real S4U API under the rebuilt simgrid-mc for reduction none/dpor/sdpor/odpor x DFS/BeFS x "
             "strategy none/uniform (+udpor on its subset), stopping at the first error and with max-errors=-1; the set of outcomes printed by complete "
-            "executions and the verdict (exit status, DEADLOCK DETECTED / PROPERTY NOT VALID) must equal the reference's.",
+            "executions and the verdict (exit status, DEADLOCK DETECTED / PROPERTY NOT VALID) must equal the reference's. A second corpus and "
+            "generator aim at source-set computations (sdpor/odpor initials): tiny 4-actor programs where a semaphore/mailbox hand-off is followed "
+            "by try_locks on distinct mutexes and the actor whose first event closes the happens-before chain is created first (already "
+            "explored/sleeping at the race); on these, brute force (<= 900 interleavings) and all 15 non-known-defective combinations run in the "
+            "quick tier, with the other creation orders as controls.",
     "note": "Soundness of the DPOR/SDPOR/ODPOR/UDPOR race analyses is NOT mechanised: it is checked per program against the verified-complete reference "
             "(only the sleep-set core is a theorem). The reference semantics is hand-written and tied to the kernel by the same differential runs "
             "(brute force must reproduce it exactly). Not covered: condition variables, iprobe/test/waitany, dynamic actor creation, sthread "
             "programs, the parallel explorer. Known defects of the pinned checker are listed in KNOWN_FINDINGS.txt (BeFS with the uniform strategy, "
             "DFS+uniform with dpor/sdpor/odpor, odpor+BeFS with MC_random, exploration after an accepted error with BeFS/odpor, udpor) and are judged "
-            "by the oracle only.",
+            "by the oracle only. Mutation record (corpus/C38/mutants/fix-C38.list): fires on the seeded change `disqualified-actor test hoisted before "
+            "push_transition in get_missing_source_set_actors_from` (sdpor misses 1 of 4 outcomes of `TryLock(2) || SemAcq(0) TryLock(2) || "
+            "TryLock(0) || SemRel(0) TryLock(0)`; found by the corpus entry and by ~1 in 6 generated family programs), on sleep set keeping dependent "
+            "transitions, dpor backward scan off by one, sdpor/odpor skipping the races of the last event; quiet on two behaviour-preserving "
+            "rewrites. simgrid-mc runs that die of its own 5 s application start-up limit (overloaded machine) are counted as timeouts.",
     "technique": "Coq proof of a reference explorer (soundness+completeness w.r.t. inductive reachability) + sleep-set theorem; extracted reference "
                  "compared per generated program with simgrid-mc runs of a generic S4U interpreter",
     "claimed": True,
